@@ -52,6 +52,10 @@ func runSolver(solver, file string, timeoutMs int) solverRes {
 }
 
 func writeQuery(dir string, idx int, o *Obligation, forCVC bool) string {
+	return writeQueryExtra(dir, idx, o, forCVC, nil, "")
+}
+
+func writeQueryExtra(dir string, idx int, o *Obligation, forCVC bool, extra []string, tag string) string {
 	var b strings.Builder
 	b.WriteString("(set-option :produce-models true)\n")
 	if forCVC {
@@ -63,6 +67,9 @@ func writeQuery(dir string, idx int, o *Obligation, forCVC bool) string {
 		q = cvcConstArrays(q)
 	}
 	b.WriteString(q)
+	for _, x := range extra {
+		b.WriteString("(assert " + x + ")\n")
+	}
 	b.WriteString("(check-sat)\n")
 	if len(o.Probes) > 0 {
 		var ts []string
@@ -75,7 +82,7 @@ func writeQuery(dir string, idx int, o *Obligation, forCVC bool) string {
 	if forCVC {
 		suffix = ".cvc5.smt2"
 	}
-	f := filepath.Join(dir, fmt.Sprintf("q%05d%s", idx, suffix))
+	f := filepath.Join(dir, fmt.Sprintf("q%05d%s%s", idx, tag, suffix))
 	os.WriteFile(f, []byte(b.String()), 0o644)
 	return f
 }
@@ -142,6 +149,16 @@ func discharge(obls []*Obligation, dir string, jobs, timeoutMs int, thorough boo
 				for _, x := range results {
 					if x.res == "sat" {
 						o.Model = parseModel(o, x.out)
+						break
+					}
+				}
+				// a nicer (realisable) model: all preferences, then each prefix
+				for n := len(o.Prefer); n > 0 && o.Expect == "unsat"; n-- {
+					pf := writeQueryExtra(dir, i, o, false, o.Prefer[:n], fmt.Sprintf(".pref%d", n))
+					pr := runSolver("z3-new", pf, timeoutMs)
+					os.Remove(pf)
+					if pr.res == "sat" {
+						o.Model = parseModel(o, pr.out)
 						break
 					}
 				}
